@@ -19,6 +19,7 @@ META = {
     "TimeSeriesWriter over every convergence pattern of a 3-substep ramp, tools.save (see C19)",
     "bounds": [
         "round trip for line, triangle, quad, tetra, hexahedron, triangle6, quad8, quad9, tetra10, hexahedron20, hexahedron27 with symbolic point coordinates (2-D meshes are padded to 3-D on write and cut back on read)",
+        "mesh.read(cellblock = None / 0 / 1) on a two-block file (quad + triangle) with symbolic points: exactly the selected blocks, in order, with the cell corner coordinates of the file",
         "job writer: one write_points_cells, then exactly one write_data(time = k) per converged substep in order k = 0, 1, 2, point data = padded displacements of that substep's field, custom point / cell data "
         "callbacks receive that substep, default cell datum 'Deformation Gradient' is the quadrature mean of F; nothing is written after the first failure",
     ],
@@ -113,6 +114,38 @@ def case_container_merge(ctx):
     ctx.check_concrete("cells_refer_to_merged_points", np.allclose(ms[0].points[ms[0].cells[0]], a.points[a.cells[0]]) and np.allclose(ms[1].points[ms[1].cells], b.points[b.cells]))
     s = ctx.var("s", 0.5, 2)
     ctx.equal("solver_content", s * 1, s)
+
+
+def case_read_cellblock(ctx, cellblock):
+    """mesh.read on a file with two cell blocks (quad, triangle): cellblock = None reads both, an integer reads exactly that block
+    (0 is a valid block number), the points are the file's points"""
+    import meshio
+
+    with ctx.concrete():
+        a = fem.Rectangle(n=2)
+        b = fem.Rectangle(a=(1, 0), b=(2, 1), n=2).triangulate()
+    X = ctx.array("X", (a.npoints + b.npoints, 2), -2, 2)
+    store = Store()
+    FakeMesh = store.mesh_class()
+    pad = np.zeros((len(X), 1), dtype=object if ctx.sym else float)
+    store.files["two.vtk"] = FakeMesh(np.hstack([X, pad]), [("quad", a.cells), ("triangle", b.cells + a.npoints)])
+    orig_read = meshio.read
+    meshio.read = store.read
+    try:
+        cont = fem.mesh.read("two.vtk", dim=2, cellblock=cellblock)
+    finally:
+        meshio.read = orig_read
+    want = [("quad", a.cells), ("triangle", b.cells + a.npoints)]
+    if cellblock is not None:
+        want = [want[cellblock]]
+    ms = cont.meshes
+    ctx.check_concrete("number_and_types_of_meshes_read", [m_.cell_type for m_ in ms] == [t for t, _ in want], "read %s" % [m_.cell_type for m_ in ms])
+    ctx.check_concrete("cell_counts_of_the_selected_blocks", len(ms) == len(want) and all(np.asarray(m_.cells).shape == c.shape for m_, (_, c) in zip(ms, want)))
+    # without merge the container stacks the point arrays of its meshes and shifts the cells: what must be preserved is the
+    # geometry, i.e. the corner coordinates of every cell
+    for k, (m_, (_, c)) in enumerate(zip(ms, want)):
+        if np.asarray(m_.cells).shape == c.shape:
+            ctx.equal("cell_corners_of_mesh_%d_are_those_of_the_file_block" % k, np.asarray(m_.points)[np.asarray(m_.cells)], X[c])
 
 
 class Writer:
@@ -218,6 +251,8 @@ def case_default_cell_data(ctx):
 def cases(tier):
     out = [("roundtrip", case_roundtrip, {"cell_type": c}) for c in CELLS]
     out.append(("container_merge", case_container_merge, {}))
+    for cb in (None, 0, 1):
+        out.append(("read_cellblock", case_read_cellblock, {"cellblock": cb}))
     out.append(("job_writer", case_job_writer, {"max_paths": 16}))
     out.append(("job_writer", case_job_writer, {"with_x0": True, "max_paths": 16}))
     out.append(("default_cell_data", case_default_cell_data, {}))
